@@ -33,13 +33,13 @@ type Spec struct {
 
 // Obj is a live object built from a spec.
 type Obj struct {
-	Spec  *Spec
-	S     *js.Schema
-	D     jschema.Document
-	E     *enum.Enum
-	R     *libregex.Schema
+	Spec   *Spec
+	S      *js.Schema
+	D      jschema.Document
+	E      *enum.Enum
+	R      *libregex.Schema
 	AddRes string
-	Types map[string]jschema.Schema // the type objects added to a schema object
+	Types  map[string]jschema.Schema // the type objects added to a schema object
 	// KeptDocs: one Document object per document of the spec, reused by every "ValidateKept" operation
 	KeptDocs map[int]jschema.Document
 }
